@@ -160,6 +160,11 @@ PROPERTIES["C02"] = {
     "outside": "socket-level ingress (recv/recv_multipart mixing), sender-side limits, attach/detach interleavings",
 }
 
+PROPERTIES["C02"]["mirsym"].append(
+        M("c02_router_send_multipart_flags", "d_c02", "router_send_multipart_flags",
+          "RouterSocket::send_multipart in region mode (from prepare_wire_frames of the peer's strategy to the hand-over to the connection, inside its coroutine MIR): payload of 1..3 frames, each empty or one symbolic byte, each with an arbitrary MORE flag as set by the application; peer strategies DEALER / REQ / ROUTER / default; auto framing",
+          budget={"quick": 200, "thorough": 300}, required_covers=["c02.router.multi-frame-payload", "c02.router.flags-not-preset"]))
+
 PROPERTIES["C17"] = {
     "kani": [
         K("c17_backoff_single", "c17_backoff", ["rzmq::socket::core::state::ReconnectState::on_connection_failure"],
@@ -169,9 +174,6 @@ PROPERTIES["C17"] = {
           "same ranges; failure (retry deadline stored), success, failure: counter and deadline cleared by the success, the next delay is the first delay again", [NOW]),
         K("c17_backoff_step", "c17_backoff", ["ReconnectState::on_connection_failure", "ReconnectState::on_connection_success"],
           "same ranges; two consecutive failures: monotone, at most doubling, capped; success resets", [NOW], tiers=("thorough",)),
-        M("c02_router_send_multipart_flags", "d_c02", "router_send_multipart_flags",
-          "RouterSocket::send_multipart in region mode (from prepare_wire_frames of the peer's strategy to the hand-over to the connection, inside its coroutine MIR): payload of 1..3 frames, each empty or one symbolic byte, each with an arbitrary MORE flag as set by the application; peer strategies DEALER / REQ / ROUTER / default; auto framing",
-          budget={"quick": 200, "thorough": 300}, required_covers=["c02.router.multi-frame-payload", "c02.router.flags-not-preset"]),
     ],
     "assumptions": ["Kani 0.68 / CBMC 6.11 model of std::time::Duration arithmetic (real std code, not a model)", "Instant::now stubbed by an arbitrary instant below 2^40 s"],
     "manifest": {
